@@ -53,6 +53,9 @@ def hetero_stacks(rnd, tier):
     return progs
 
 
+UNLIM = {'T1': ['t'], 'T2': ['t'], 'T3': ['t'], 'T5': ['time'], 'T7': ['t']}
+
+
 def mfopen_stacks(rnd, tier):
     """C04: the multi-file open helpers pncmfopen / open_mfdataset: a file is
     split into consecutive pieces along a dimension (also after reversing it,
@@ -60,7 +63,7 @@ def mfopen_stacks(rnd, tier):
     and the paths are opened as one file - in the order of the pieces and in
     other orders (the result is the concatenation in ARGUMENT order)."""
     dims = {'T1': {'t': 2, 'y': 2, 'x': 3}, 'T3': {'y': 3, 't': 2, 'x': 2},
-            'T5': {'time': 4, 'lev': 3}, 'T7': {'z': 3, 'x': 3},
+            'T5': {'time': 4, 'lev': 3}, 'T7': {'z': 3, 'x': 3, 't': 2},
             'T2': {'t': 3}}
 
     def sl(a, b, c=None):
@@ -93,17 +96,24 @@ def mfopen_stacks(rnd, tier):
                     for pc in pieces:
                         steps.append({'act': 'reopen', 'src': pc,
                                       'others': [], 'args': {
+                                          # (the classic format wants the
+                                          # unlimited dimension first)
                                           'format': rnd.choice([
                                               'NETCDF4_CLASSIC',
-                                              'NETCDF3_CLASSIC'])}})
+                                              'NETCDF3_CLASSIC'])
+                                          if t != 'T3' else 'NETCDF4'}})
                         disk.append(pieces[-1] + len(disk) + 1)
                     orders = [disk, disk[::-1]]
                     if len(disk) == 3:
                         orders.append([disk[1], disk[2], disk[0]])
                     for o in orders:
+                        args = {'dim': d, 'via': via}
+                        # open_mfdataset without a dimension name picks the
+                        # first unlimited dimension (or a time-like name)
+                        if via == 'open_mfdataset' and d in UNLIM[t]:
+                            args['defaultdim'] = True
                         steps.append({'act': 'stack', 'src': o[0],
-                                      'others': o[1:],
-                                      'args': {'dim': d, 'via': via}})
+                                      'others': o[1:], 'args': args})
                     progs.append({'templates': [t], 'steps': steps})
     if tier == 'quick':
         progs = rnd.sample(progs, min(len(progs), 40))
